@@ -111,7 +111,7 @@ theorem skip_while_natural (lag : Bool) (ρ : α → α') (p : α → Except Err
 
 /-- `distinct`: keys renamed by `τ`, comparer transported along `τ` -/
 theorem distinct_natural (lag : Bool) (ρ : α → α') (τ : κ → κ') (key : α → Except Err κ) (key' : α' → Except Err κ')
-    (cmp : κ → κ → Bool) (cmp' : κ' → κ' → Bool)
+    (cmp : κ → κ → Except Err Bool) (cmp' : κ' → κ' → Except Err Bool)
     (hk : ∀ x, key' (ρ x) = (key x).map τ) (hc : ∀ a b, cmp' (τ a) (τ b) = cmp a b) (raw : List (Notif α)) :
     visible ((distinctOp key' cmp').run lag (mapN ρ raw)) = mapN ρ (visible ((distinctOp key cmp).run lag raw)) := by
   rw [C05.distinct_eq, C05.distinct_eq]
@@ -121,8 +121,8 @@ theorem distinct_natural (lag : Bool) (ρ : α → α') (τ : κ → κ') (key :
 /-- `distinct()` with the default comparer `==`: any **injective** renaming (falsy values to tokens) commutes -/
 theorem distinct_natural_inj [DecidableEq α] [DecidableEq α'] (lag : Bool) (ρ : α → α')
     (hinj : ∀ a b, ρ a = ρ b → a = b) (raw : List (Notif α)) :
-    visible ((distinctOp (fun x => .ok x) (fun a b : α' => decide (a = b))).run lag (mapN ρ raw))
-      = mapN ρ (visible ((distinctOp (fun x => .ok x) (fun a b : α => decide (a = b))).run lag raw)) := by
+    visible ((distinctOp (fun x => .ok x) (fun a b : α' => .ok (decide (a = b)))).run lag (mapN ρ raw))
+      = mapN ρ (visible ((distinctOp (fun x => .ok x) (fun a b : α => .ok (decide (a = b)))).run lag raw)) := by
   apply distinct_natural lag ρ ρ
   · intro x; rfl
   · intro a b
@@ -206,7 +206,7 @@ end AsIs
 /-! ## Non-vacuity: the falsy values themselves, through the fixed operators -/
 example : visible ((skipLastOp (α := Option Nat) 1).run false [.next none, .next (some 0), .next none, .completed])
     = [.next none, .next (some 0), .completed] := by decide
-example : visible ((distinctOp (fun x : Option Nat => .ok x) (fun a b => decide (a = b))).run true
+example : visible ((distinctOp (fun x : Option Nat => .ok x) (fun a b => .ok (decide (a = b)))).run true
       [.next none, .next (some 0), .next none, .next (some 0), .completed])
     = [.next none, .next (some 0), .completed] := by decide
 
